@@ -2,7 +2,7 @@
 import copy
 import numpy as np
 from cryptorandom.cryptorandom import SHA256
-from .common import guarded, run_model
+from .common import gstate, guarded, run_model
 from . import randtests as rt
 from .c03 import call_on
 from .prng import RecSHA256, RecRandomState
@@ -45,9 +45,9 @@ def run(ctx):
             det = {"call": name, "params": p, "seed": seed}
             arrays = lambda: {k: np.array(v) for k, v in p.items() if isinstance(v, list) and k in ("x", "y", "group", "cond", "resp", "g1", "g2")}
             np.random.seed(ctx.rng.randint(0, 10**6))
-            st0 = np.random.get_state()[1].copy()
+            st0 = gstate()
             r1, _ = call_on(name, p, arrays(), seed if ctx.rng.random() < 0.7 else np.int64(seed))
-            touched = not np.array_equal(np.random.get_state()[1], st0)
+            touched = gstate() != st0
             np.random.seed(ctx.rng.randint(0, 10**6)); np.random.random(ctx.rng.randint(0, 5))
             if ctx.rng.random() < 0.5:     # a different call history in between
                 utils.permute(np.arange(4), 99); guarded(irr.simulate_ts_dist, np.array([[0, 1], [1, 1]]), None, 2, False, 3)
@@ -109,9 +109,9 @@ def run(ctx):
     for _ in range(ctx.n(60, 800)):
         seed = ctx.rng.randint(0, 2**31)
         m = np.array([[1, 0, 1, 0], [0, 1, 1, 0], [1, 1, 0, 0]]); k = ctx.rng.randint(1, 5)
-        np.random.seed(ctx.rng.randint(0, 10**6)); st0 = np.random.get_state()[1].copy()
+        np.random.seed(ctx.rng.randint(0, 10**6)); st0 = gstate()
         a = guarded(utils.permute_incidence_fixed_sums, m, k, seed)
-        touched = not np.array_equal(np.random.get_state()[1], st0)
+        touched = gstate() != st0
         np.random.seed(ctx.rng.randint(0, 10**6))
         b = guarded(utils.permute_incidence_fixed_sums, m, k, SHA256(seed))
         ctx.case(("inc", seed, k), True); ctx.count("permute_incidence_fixed_sums")
@@ -124,20 +124,25 @@ def run(ctx):
             return npc.Experiment(grp, resp)
         tests = npc.Experiment.make_test_array(npc.Experiment.TestFunc.mean_diff, [0, 1])
         outs = []
+        ekind = ctx.rng.choice(["int", "int", "randomstate", "sha256"])
+        sd = {"int": lambda: seed, "randomstate": lambda: np.random.RandomState(seed % 2**32), "sha256": lambda: SHA256(seed)}[ekind]
+        ctx.count("experiment-seed-" + ekind)
         for trial in range(2):
             np.random.seed(ctx.rng.randint(0, 10**6))
-            e, e2, e3 = mk(), mk(), mk()      # an Experiment built without a seed legitimately draws one from numpy.random
-            st0 = np.random.get_state()[1].copy()
-            r1 = guarded(e.randomize, True, seed); g1 = e.group.tolist()
-            r2 = guarded(npc.sim_npc, e2, tests, "fisher", False, 6, seed)
-            r3 = guarded(npc.westfall_young, e3, tests, "minP", "greater", False, 6, seed)
-            touched = not np.array_equal(np.random.get_state()[1], st0)
+            e, e2, e3, e4 = mk(), mk(), mk(), mk()      # an Experiment built without a seed legitimately draws one from numpy.random
+            st0 = gstate()
+            r1 = guarded(e.randomize, True, sd()); g1 = e.group.tolist()
+            r4 = guarded(e4.randomize, False, sd())       # the copying variant
+            g1 = (g1, r4[1].group.tolist() if r4[0] == "ok" else r4, e4.group.tolist())
+            r2 = guarded(npc.sim_npc, e2, tests, "fisher", False, 6, sd())
+            r3 = guarded(npc.westfall_young, e3, tests, "minP", "greater", False, 6, sd())
+            touched = gstate() != st0
             outs.append((g1, r2, r3, touched))
         ctx.case(("exp", seed), True); ctx.count("experiment-seeded")
         if outs[0][3] or outs[1][3] or outs[0][0] != outs[1][0] or not same(outs[0][1][1:], outs[1][1][1:]) or not same(
                 [dict(d) if isinstance(d, dict) else d for d in outs[0][2][1]] if outs[0][2][0] == "ok" else None,
                 [dict(d) if isinstance(d, dict) else d for d in outs[1][2][1]] if outs[1][2][0] == "ok" else None):
-            ctx.violation("oracle", {"call": "Experiment.randomize/sim_npc/westfall_young", "seed": seed, "touched_global_state": [outs[0][3], outs[1][3]],
+            ctx.violation("oracle", {"call": "Experiment.randomize/sim_npc/westfall_young", "seed": seed, "seed_given_as": ekind, "touched_global_state": [outs[0][3], outs[1][3]],
                                      "issue": "seeded Experiment randomisation / sim_npc / westfall_young not reproducible or not isolated from numpy.random",
                                      "first": str(outs[0])[:400], "second": str(outs[1])[:400]}, site="Experiment")
     # ---- the same Experiment object: a seeded call must not depend on what the object was used for before
@@ -190,7 +195,7 @@ def run(ctx):
             if isinstance(v, SHA256):
                 before = (v.baseseed, v.counter, getattr(v, "randbits", None), getattr(v, "randbits_remaining", None))
             elif isinstance(v, np.random.RandomState):
-                before = v.get_state()[1].copy()
+                before = (v.get_state()[1].tobytes(), v.get_state()[2])
             r = guarded(utils.get_prng, v)
             read_global = not np.array_equal(np.random.get_state()[1], st[1]) or np.random.get_state()[2] != st[2]
             if r[0] != "ok":
@@ -206,7 +211,7 @@ def run(ctx):
                 if isinstance(v, SHA256):
                     unchanged = before == (v.baseseed, v.counter, getattr(v, "randbits", None), getattr(v, "randbits_remaining", None))
                 else:
-                    unchanged = np.array_equal(before, v.get_state()[1])
+                    unchanged = before == (v.get_state()[1].tobytes(), v.get_state()[2])
                 got = "same-object" if unchanged else "same-object-but-advanced"
             elif type(r[1]) is SHA256:
                 ref = SHA256(v)
